@@ -931,3 +931,14 @@ Example ex_favicon_without_proxy_leaks :
     = [w_evil] /\
   h_get k_xfat (upstream_r true w_cfg (RFavicon w_sess) (Authenticated w_sess) [(lower_ascii k_xfat, w_evil)]) = [].
 Proof. split; reflexivity. Qed.
+
+(* an upstream whose own options say pass_access_token: false never receives the session's token,
+   on any route, whatever the deployment default and whatever the client sent *)
+Lemma optout_respected cfg dd r s client v :
+  pass_access_token cfg = resolve_pass_access_token dd (Some false) ->
+  In v (h_get k_xfat (upstream_r true cfg r (Authenticated s) client)) -> last_injected k_xfat (inject cfg) = Some v.
+Proof.
+  intros Hp Hin. destruct (upstream_r_get_weak true cfg r (Authenticated s) client k_xfat) as [E|E]; rewrite E in Hin; [destruct Hin|].
+  unfold to_reverse_proxy_r in Hin. rewrite chain_token in Hin. unfold allowed_token, token_enabled in Hin.
+  rewrite Hp in Hin. cbn in Hin. destruct (last_injected k_xfat (inject cfg)); [destruct Hin as [<-|[]]; reflexivity | destruct Hin].
+Qed.
